@@ -176,25 +176,29 @@ ArchReq(ks, cutmid) ==
 \* ArchiveDecoder.Next as coded, called until error / end; returns the final outcome and the number of nodes returned.
 \* entry: an entry element is pending; content: a symlink/device element was seen for it; named: a filename was seen in this
 \* call; depth: directories returned and not yet closed by a goodbye (only the repaired code keeps it)
-RECURSIVE ArchRun(_, _, _, _, _, _)
-ArchRun(ks, entry, content, named, depth, nodes) ==
-  LET err == [out |-> "error", nodes |-> nodes] IN
+RECURSIVE ArchRun(_, _, _, _, _, _, _)
+\* root: the nameless first entry has been returned.  A node may only be returned if it is that first entry or if it has a
+\* name and lies in an open directory (repair of finding F22; not checked by the code as found)
+ArchRun(ks, entry, content, named, depth, nodes, root) ==
+  LET err == [out |-> "error", nodes |-> nodes]
+      placed == ~Guarded \/ (IF named THEN depth > 0 ELSE ~root)
+  IN
   IF ks = <<>> THEN
        IF Guarded /\ (entry \/ named \/ depth > 0) THEN err ELSE [out |-> "eof", nodes |-> nodes]     \* as found: any end of input is the end of the archive
   ELSE LET k == Head(ks) rest == Tail(ks) IN
-       IF IsEntry(k) THEN (IF entry THEN err ELSE ArchRun(rest, TRUE, FALSE, named, depth, nodes))
-       ELSE IF k = "attr" THEN ArchRun(rest, entry, content, named, depth, nodes)
+       IF IsEntry(k) THEN (IF entry THEN err ELSE ArchRun(rest, TRUE, FALSE, named, depth, nodes, root))
+       ELSE IF k = "attr" THEN ArchRun(rest, entry, content, named, depth, nodes, root)
        ELSE IF k = "xattr_nonul" THEN err
-       ELSE IF k = "xattr" THEN (IF ~entry THEN err ELSE ArchRun(rest, entry, content, named, depth, nodes))
-       ELSE IF k = "payload" THEN (IF ~entry THEN err ELSE ArchRun(rest, FALSE, FALSE, FALSE, depth, nodes + 1))     \* the file node is returned at once
-       ELSE IF k \in {"symlink", "device"} THEN (IF ~entry THEN err ELSE ArchRun(rest, TRUE, TRUE, named, depth, nodes))
+       ELSE IF k = "xattr" THEN (IF ~entry THEN err ELSE ArchRun(rest, entry, content, named, depth, nodes, root))
+       ELSE IF k = "payload" THEN (IF ~entry \/ ~placed THEN err ELSE ArchRun(rest, FALSE, FALSE, FALSE, depth, nodes + 1, TRUE))     \* the file node is returned at once
+       ELSE IF k \in {"symlink", "device"} THEN (IF ~entry THEN err ELSE ArchRun(rest, TRUE, TRUE, named, depth, nodes, root))
        ELSE IF entry THEN \* filename or goodbye with a pending entry: the node is returned (a directory unless content was seen), the element is kept for the next call
-            ArchRun(ks, FALSE, FALSE, FALSE, IF content THEN depth ELSE depth + 1, nodes + 1)
+            (IF ~placed THEN err ELSE ArchRun(ks, FALSE, FALSE, FALSE, IF content THEN depth ELSE depth + 1, nodes + 1, TRUE))
        ELSE IF k = "filename_bad" THEN err
-       ELSE IF k = "filename" THEN ArchRun(rest, FALSE, FALSE, TRUE, depth, nodes)
-       ELSE ArchRun(rest, FALSE, FALSE, named, IF depth > 0 THEN depth - 1 ELSE 0, nodes)           \* goodbye: "cd .."
+       ELSE IF k = "filename" THEN ArchRun(rest, FALSE, FALSE, TRUE, depth, nodes, root)
+       ELSE ArchRun(rest, FALSE, FALSE, named, IF depth > 0 THEN depth - 1 ELSE 0, nodes, root)           \* goodbye: "cd .."
 
-ArchOK(ks) == LET r == ArchRun(ks, FALSE, FALSE, FALSE, 0, 0)
+ArchOK(ks) == LET r == ArchRun(ks, FALSE, FALSE, FALSE, 0, 0, FALSE)
                   q == ArchReq(ks, FALSE)
               IN q = "any" \/ r.out = q
 
@@ -209,7 +213,7 @@ KindSeqs == UNION {[1..n -> Kinds] : n \in 0..MaxKinds}
 
 ASSUME \A e \in Elems : ElemOK(e) \/ (PrintT(<<"CEX element", e, Dec(e), Class(e)>>) /\ FALSE)
 ASSUME \A m \in Msgs : MsgOK(m) \/ (PrintT(<<"CEX message", m, MsgDec(m)>>) /\ FALSE)
-ASSUME \A ks \in KindSeqs : ArchOK(ks) \/ (PrintT(<<"CEX archive", ks, ArchRun(ks, FALSE, FALSE, FALSE, 0, 0), ArchReq(ks, FALSE)>>) /\ FALSE)
+ASSUME \A ks \in KindSeqs : ArchOK(ks) \/ (PrintT(<<"CEX archive", ks, ArchRun(ks, FALSE, FALSE, FALSE, 0, 0, FALSE), ArchReq(ks, FALSE)>>) /\ FALSE)
 VARIABLE x
 Spec == x = 0 /\ [][UNCHANGED x]_x
 =============================================================================
